@@ -116,6 +116,110 @@ theorem C23_loop_sound (s : St) (max : Int) (m : Masks) (take : Bool) (fuel : Na
         have := hleast h' hm' ha'
         omega
 
+/-- number of known instances whose handle is after `prev` (the loop's termination measure) -/
+def cntAfter (prev : Option Nat) : List Inst → Nat
+  | [] => 0
+  | i :: is => (if afterB prev i.h then 1 else 0) + cntAfter prev is
+
+theorem cntAfter_le_length (prev : Option Nat) (l : List Inst) : cntAfter prev l ≤ l.length := by
+  induction l with
+  | nil => simp [cntAfter]
+  | cons i is ih => simp only [cntAfter, List.length_cons]; split <;> omega
+
+theorem cntAfter_mono (prev : Option Nat) (h : Nat) (hp : After prev h) (l : List Inst) :
+    cntAfter (some h) l ≤ cntAfter prev l := by
+  induction l with
+  | nil => simp [cntAfter]
+  | cons i is ih =>
+    simp only [cntAfter]
+    by_cases ha : afterB (some h) i.h = true
+    · have : afterB prev i.h = true := by
+        cases prev with
+        | none => rfl
+        | some p =>
+          have h1 : p < h := (after_some p h).mp hp
+          have h2 : h < i.h := (after_some h i.h).mp ha
+          exact (after_some p i.h).mpr (by omega)
+      simp [ha, this]; omega
+    · have ha' : afterB (some h) i.h = false := by simpa using ha
+      simp only [ha', Bool.false_eq_true, if_false]
+      split <;> omega
+
+theorem cntAfter_lt (prev : Option Nat) (h : Nat) (hp : After prev h) (l : List Inst) (hm : h ∈ l.map (·.h)) :
+    cntAfter (some h) l < cntAfter prev l := by
+  induction l with
+  | nil => simp at hm
+  | cons i is ih =>
+    simp only [cntAfter]
+    have hmono := cntAfter_mono prev h hp is
+    rw [List.map_cons] at hm
+    rcases List.mem_cons.mp hm with h1 | h1
+    · have hself : afterB (some h) i.h = false := by
+        rw [← h1]; simp [afterB]
+      have hprev : afterB prev i.h = true := by rw [← h1]; exact hp
+      simp [hself, hprev]; omega
+    · have := ih h1
+      by_cases ha : afterB (some h) i.h = true
+      · have : afterB prev i.h = true := by
+          cases prev with
+          | none => rfl
+          | some p =>
+            have h1 : p < h := (after_some p h).mp hp
+            have h2 : h < i.h := (after_some h i.h).mp ha
+            exact (after_some p i.h).mpr (by omega)
+        simp [ha, this]; omega
+      · have ha' : afterB (some h) i.h = false := by simpa using ha
+        simp only [ha', Bool.false_eq_true, if_false]
+        split <;> omega
+
+/-- C23 (completeness): NoData is returned only if NO known instance after `prev` has matching samples —
+    given enough fuel, which `read/take_next_instance` always provides (`C23_nodata_only_if_none`) -/
+theorem C23_loop_complete (s : St) (max : Int) (m : Masks) (take : Bool) (fuel : Nat) (prev : Option Nat)
+    (hfuel : cntAfter prev s.insts < fuel)
+    (hnd : (nextInstanceLoop s max m take fuel prev).2 = .error .noData) :
+    ∀ h ∈ s.insts.map (·.h), After prev h → (readOrTake s max m (some h) take).2 = .error .noData := by
+  induction fuel generalizing prev with
+  | zero => omega
+  | succ n ih =>
+    unfold nextInstanceLoop at hnd
+    have hspec := C23_next_is_least s.insts prev
+    split at hnd
+    · rename_i hnone
+      rw [hnone] at hspec
+      intro h hm ha
+      exact absurd ha (hspec h hm)
+    · rename_i h0 hnext
+      rw [hnext] at hspec
+      simp only [] at hspec
+      obtain ⟨hmem, hafter, hleast⟩ := hspec
+      split at hnd
+      · rename_i hnd0
+        have hlt := cntAfter_lt prev h0 hafter s.insts hmem
+        have hrest := ih (some h0) (by omega) hnd
+        intro h hm ha
+        by_cases hh : h = h0
+        · subst hh; rw [hnd0]
+        · have := hleast h hm ha
+          exact hrest h hm ((after_some h0 h).mpr (by omega))
+      · rename_i r hne
+        exfalso
+        cases hr : readOrTake s max m (some h0) take with
+        | mk s' e =>
+          rw [hr] at hnd
+          simp only [] at hnd
+          exact hne s' (by rw [hr, hnd])
+
+/-- C23: `read_next_instance` / `take_next_instance` on an enabled reader return NoData only when no instance with
+    a handle greater than `prev` has samples matching the masks -/
+theorem C23_nodata_only_if_none (s : St) (max : Int) (prev : Option Nat) (m : Masks) (take : Bool)
+    (hen : s.enabled = true)
+    (hnd : (readTakeNextInstance s max prev m take).2 = .error .noData) :
+    ∀ h ∈ s.insts.map (·.h), After prev h → (readOrTake s max m (some h) take).2 = .error .noData := by
+  unfold readTakeNextInstance at hnd
+  simp only [hen, Bool.not_true, Bool.false_eq_true, if_false] at hnd
+  exact C23_loop_complete s max m take (s.insts.length + 1) prev
+    (by have := cntAfter_le_length prev s.insts; omega) hnd
+
 example :
     let q : Qos := { depth := none, maxSamples := none, maxInst := none, maxSpi := none, bySource := false,
                      exclusive := false, minSep := some 0 }
